@@ -39,7 +39,7 @@ CLAIMS = {
         note=('Trusted: source heap/malloc return fresh objects (assumed contracts), alignment relative to the chunk start, PerBackend rely on nextLoc (<= 511 threads) and free-list stub invariant, heap-table stub. '
               'Not decided: concurrent use of shared heaps, NUMA large arrays, mmap page pool, clear() list walks, deallocOffset, SizedHeapFactory.')),
     'C14': dict(
-        text=('Proof, per function: TwoLevelIteratorA::safe_decrement (bidirectional and forward-only dispatch), seek_forward/increment, seek_backward/decrement (successor / predecessor in the flattened sequence); optional<T> (all constructors, assign, get, destroy: value semantics and construct/destroy exactly once); flat_map range constructors/resort/emplace/find (typestate: sorted and one entry per key); MinHeap range constructor/push/pop/top/remove (typestate of the wrapped heap: always a heap for revCmp, std algorithms called with the matching comparator), ThreadSafeMinHeap/ThreadSafeOrderedSet operations (lock discipline); gslist<T,4> (non-concurrent) emplace_front/pop_front/front/empty on the head block and its successor; gdeque<T,4> end operations (push/emplace/pop at both ends, front, back, size, empty, extend_first/last, shrink) as local contracts on the end block, its neighbour and first/last/num; '
+        text=('Proof, per function: TwoLevelIteratorA::safe_decrement (bidirectional and forward-only dispatch), seek_forward/increment, seek_backward/decrement (successor / predecessor in the flattened sequence), jump_backward (BOUNDED: exhaustive over a small model); optional<T> (all constructors, assign, get, destroy: value semantics and construct/destroy exactly once); flat_map range constructors/resort/emplace/find (typestate: sorted and one entry per key); MinHeap range constructor/push/pop/top/remove (typestate of the wrapped heap: always a heap for revCmp, std algorithms called with the matching comparator), ThreadSafeMinHeap/ThreadSafeOrderedSet operations (lock discipline); gslist<T,4> (non-concurrent) emplace_front/pop_front/front/empty on the head block and its successor; gdeque<T,4> end operations (push/emplace/pop at both ends, front, back, size, empty, extend_first/last, shrink) as local contracts on the end block, its neighbour and first/last/num; '
               'PODResizeableArray<uint8_t|uint64_t> -- constructors, move, destructor, reserve/resize/clear, element access, iterators, push_back (also of an own element), '
               'insert at end, assign, swap -- against the abstract sequence data_[0..size_) (same results as std::vector, every other element kept, block of exactly capacity_ elements, blocks freed once). '
               'And, for ChunkSize in {1,3,4,64}: every non-range operation of FixedSizeRing and its iterator, of FixedSizeBag, and push/pop of ConcurrentFixedSizeBag used from one thread '
